@@ -175,6 +175,33 @@ def gen_mixed(ctx):
             "terminates_under_weak_fairness": True}
 
 
+def gen_disk(ctx):
+    """GenDisk: Disk-Revolve and Periodic-Disk-Revolve with every resolution of their choices (any split
+    attaining the recurrence, any Bellman-optimal binomial advance): no clause fails, nothing gets stuck,
+    the cost is the value of the Disk-Revolve recurrence, every disk checkpoint is read once, every
+    resolution terminates (design level, no code)."""
+    cfgs = ["GenDisk.cfg", "GenDisk_2.cfg", "GenDisk_cheap.cfg", "GenDisk_free.cfg", "GenDiskPeriodic.cfg",
+            "GenDiskPeriodic_1.cfg"]
+    out = []
+    for cfg in cfgs:
+        r = tlc.run("GenDisk", cfg=cfg, timeout=600, workers=4)
+        ctx.add_run("GenDisk/" + cfg, r)
+        if not r["ok"]:
+            raise fw.Machinery(f"the Disk-Revolve generator model fails at design level ({cfg}): "
+                               f"{tlc.invariant_violated(r)} {r['error']}")
+        out.append({"cfg": cfg, "states": r["distinct"], "all_clauses_hold": True})
+    rr = tlc.run("GenDisk", cfg="GenDiskReach.cfg", timeout=300, workers=4)
+    ctx.add_run("GenDisk/reach", rr)
+    if tlc.invariant_violated(rr) is None:
+        raise fw.Machinery("vacuity: the Disk-Revolve generator model never reads a disk checkpoint")
+    lv = tlc.run("GenDisk", cfg="GenDiskLive.cfg", timeout=600, workers=4)
+    ctx.add_run("GenDisk/liveness", lv)
+    if not lv["ok"]:
+        raise fw.Machinery(f"the Disk-Revolve generator model does not terminate under fairness: {lv['error']}")
+    out.append({"cfg": "GenDiskLive.cfg", "terminates_under_weak_fairness": True})
+    return out
+
+
 def gen_twolevel(ctx):
     """GenTwoLevel: every interleaving of next()/finalize(k), every consistent finalisation point,
     every resolution of the step choice, two adjoint passes: no clause fails, every pass takes
